@@ -353,3 +353,4 @@ LEVEL_NOTE = (
     'No axioms (Print Assumptions: closed under the global context).'
 )
 TECHNIQUE = 'Coq proof (induction + lifted finite check) over a model regenerated/tied by translator and vm_compute correspondence'
+COQCHK_TIMEOUT = 2400   # the finite calendar sweeps are re-checked by coqchk's lazy conversion: ~8 min on an idle machine
